@@ -100,29 +100,43 @@ def run_fault_end(spec):
         peer = pairs.ScriptedPeer(tee=False, transport=("pipe", "tcp")[run % 2])
         try:
             ch = peer.gw.newchannel()
-            f = ch.makefile("r")
+            proxyclose = rng.random() < 0.5
+            f = ch.makefile("r", proxyclose=proxyclose)
+            if rng.random() < 0.5:
+                # a younger channel whose endmarker callback is slow: the receiver thread is still busy ending channels
+                # while the reader of this one has already been woken
+                slow = peer.gw.newchannel()
+                slow.setcallback(lambda x: time.sleep(0.15) if x is None else None, endmarker=None)
+            ending = rng.choice(("connection_loss", "connection_loss", "local_close"))
             ref = (io.StringIO if text else io.BytesIO)((("" if text else b"").join(items)))
             peer.feed(b"".join(codec.frame(M["CHANNEL_DATA"], ch.id, codec.encode(i, versioned=False)) for i in items))
+            if ending == "local_close":
+                # everything has arrived; the reading side itself closes the channel, then reads on
+                pairs.wait_until(lambda: ch._items.qsize() >= len(items), 5.0)
             cut_first = rng.random() < 0.5
             if cut_first:
-                peer.close_peer()
+                ch.close() if ending == "local_close" else peer.close_peer()
             got: list = []
 
             def reader():
                 for c in script:
-                    got.append(f.readline() if c == "L" else f.read(c))
+                    try:
+                        got.append(f.readline() if c == "L" else f.read(c))
+                    except BaseException as e:  # noqa
+                        got.append(f"{type(e).__name__}: {e}")
+                        return
 
             t = threading.Thread(target=reader, daemon=True)
             t.start()
             if not cut_first:
                 time.sleep(0.01)
-                peer.close_peer()
+                ch.close() if ending == "local_close" else peer.close_peer()
             t.join(10)
             want = [ref.readline() if c == "L" else ref.read(c) for c in script]
             res.count("read_calls", len(script))
             res.count("fault_end_runs")
             res.case(core.h64("fault_end", run, tuple(items), tuple(map(str, script))))
-            label = f"items={items} script={script} connection lost {'before' if cut_first else 'during'} the reads"
+            label = f"items={items} script={script} proxyclose={proxyclose} {ending} {'before' if cut_first else 'during'} the reads"
             if t.is_alive():
                 res.violation("channelfile-read-blocks-after-connection-loss", f"{label}: call #{len(got)} ({script[len(got)]}) did not return; so far {got}")
             elif len(got) != len(want) or any(g != w and not (len(g) == 0 and len(w) == 0) for g, w in zip(got, want)):
